@@ -39,7 +39,7 @@ RULE = (
 )
 ASSUMPTIONS = [
     "draw alphabets: z in {-1.5, 0, 0.7, 2.5}, u in {0, 0.3, 1-2^-24} + ties; nothing is claimed about the chain's invariant law",
-    "mixture model: covered in the thorough tier only, with the cluster-responsibility-weighted regularity of the individual sampler as documented target",
+    "mixture model: individual samplers in both tiers (cluster-responsibility-weighted regularity as documented target), population samplers in the thorough tier",
     "alpha compared with the from-scratch formula at rtol 1e-5 (bit-equal on the reference tree); decisions compared exactly with u < alpha(implementation)",
     "start states: prior mode, a perturbed state, the states after one and two scripted sweeps",
 ]
@@ -51,7 +51,7 @@ TEMPS = {"quick": [1.0, 0.5, 0.1], "thorough": [1.0, 0.5, 1.0 / 3.0, 0.1]}
 
 def bounds(tier):
     return {"deviations": "2 for <=2 decisions else 1" if tier == "quick" else 2, "temperatures": TEMPS[tier],
-            "starts": ["mode", "perturbed", "after1sweep"] if tier == "quick" else ["mode", "perturbed", "after1sweep", "after2sweeps"],
+            "starts": ["mode", "perturbed", "after1sweep", "sharp (tiny noise, tight priors, 20-50x proposal scale: overflowing ratios)"] + ([] if tier == "quick" else ["after2sweeps"]),
             "models": "representative kinds" if tier == "quick" else "all catalogue kinds incl. mixture"}
 
 
@@ -261,7 +261,20 @@ def run_case(u, kind, v, T_inv, start, script, ids_label=None, want_alphas=False
             ref.indep[w] = st._values[w].clone()
         ref.fork = None
     is_ind = v in u.ind_vars
+    if start == "sharp":
+        # a state far from equilibrium: tiny noise and tight priors, so that moves change the attachment and the
+        # regularity by hundreds of nats (acceptance ratios overflow to +inf / underflow to 0, possibly one factor each way)
+        perturb(u, st, ref)
+        for pname, factor in (("noise_std", 0.02), ("tau_std", 0.02), ("xi_std", 0.02)):
+            if pname in ref.indep and ref.indep[pname] is not None:
+                new = ref.indep[pname] * factor
+                with st.auto_fork(None):
+                    st[pname] = new.clone()
+                ref.indep[pname] = new
+        ref.fork = None
     sampler = make_sampler(kind, st, v, u.n_ind if is_ind else None)
+    if start == "sharp":
+        sampler.std = sampler.std * (50.0 if is_ind else 20.0)
     std_before = sampler.std.clone()
     env = seams.Scripted(script) if not isinstance(script, seams.Env) else script
     try:
@@ -312,7 +325,7 @@ def explore(u, kind, v, acc, tier, model_name):
         max_dev = 2
     if not is_ind and n_dec > 4:
         max_dev = 1
-    starts = ["mode", "perturbed", "after1sweep"] if tier == "quick" else ["mode", "perturbed", "after1sweep", "after2sweeps"]
+    starts = ["mode", "perturbed", "after1sweep", "sharp"] if tier == "quick" else ["mode", "perturbed", "after1sweep", "after2sweeps", "sharp"]
     shuffles = ["identity"] if is_ind or n_dec == 1 else (["identity", "reverse"] if n_dec > 3 else [list(p) for p in itertools.permutations(range(n_dec))])
     base = {"model": model_name, "ids": u.ids, "kind": kind, "variable": v}
     cname = type(sampler).__name__
@@ -418,7 +431,7 @@ def recorded_pass(u, kind, v, acc, seed, model_name, n_sweeps):
 # ------------------------------------------------------------------------------------------
 
 QUICK_MODELS = ("logistic_d2_s1_diag", "linear_d2_s1_diag", "shared_d2_s1_diag", "joint_d2_s1_diag", "logistic_d2_s1_bernoulli",
-                "logistic_d1_s0_scalar")
+                "logistic_d1_s0_scalar", "mixture_d4_s2_diag")
 
 
 def shards(tier, seed):
@@ -434,6 +447,8 @@ def shards(tier, seed):
             if tier == "thorough":
                 out.append({"model": name, "ids": ["b", "c", "d"], "variable": v, "kind": "gibbs", "tier": tier, "seed": seed})
         for v in pop:
+            if tier == "quick" and name.startswith("mixture"):
+                continue  # quick: the mixture model's individual samplers (cluster-weighted regularity) only
             for kind in POP_KINDS:
                 if tier == "quick" and kind != "gibbs" and name != "logistic_d2_s1_diag" and name != "joint_d2_s1_diag":
                     continue
